@@ -148,7 +148,9 @@ theorem Tx.put_ok {t t' : Tx} {k : Str} {v : Val} (h : t.put k v = .ok t') :
   unfold Tx.put at h
   split at h
   · cases h
-  · cases h; exact ⟨rfl, rfl⟩
+  · split at h
+    · cases h
+    · cases h; exact ⟨rfl, rfl⟩
 
 theorem Tx.delete_ok {t t' : Tx} {k : Str} (h : t.delete k = .ok t') :
     t'.kv = kvDel t.kv k ∧ t'.failAt = t.failAt := by
